@@ -4,6 +4,7 @@
 #define VERIF_BASE_H
 #include <stdint.h>
 #include <stddef.h>
+typedef long ssize_t;
 
 #define OLD(e) __CPROVER_old(e)
 #define RESULT __CPROVER_return_value
